@@ -35,6 +35,9 @@ const SIG_K1B: &str = "rcb-k1b-heavy-left";
 /// would otherwise be `rcb-unbalanced-other`)
 const SIG_K2B: &str = "rcb-k2b-nopoint-rounding";
 const SIG_OTHER: &str = "rcb-unbalanced-other";
+/// `(min + max) / 2.0` overflows in f32 (|coordinates| above 1.7e38, all finite): the target is an
+/// infinity, every item is on one side of it twice, the node is not cut at all
+const SIG_K3: &str = "rcb-k3-midpoint-overflow";
 const SIG_PREMISE: &str = "rcb-premise-violated";
 /// what `par_rcb_split` reports contradicts what its fold/reduce must compute on these items,
 /// whatever rayon's chunking (never a rounding effect: both facts are exact in IEEE arithmetic)
@@ -221,6 +224,8 @@ struct NodeEval {
     /// two DISTINCT coordinates at or right of split_pos share the smallest rounded distance: which
     /// becomes the pivot depends on the order of the items and, with several chunks, on rayon's split
     tie_possible: bool,
+    /// the search interval or the split position is not finite although every coordinate is
+    overflowed: bool,
 }
 
 /// `xs`, `ws`: the node's items (split axis); `order[..split]` = the low side the implementation made.
@@ -283,6 +288,8 @@ fn eval_node(
     }
     let premise = match rep {
         None => false,
+        // an overflowed interval is outside the exact arithmetic the premise is about
+        Some(r) if !(r.fmin.is_finite() && r.fmax.is_finite() && split_pos.is_finite()) => false,
         Some(r) => {
             r.exit == Exit::Tol || {
                 let mut first: Option<f32> = None;
@@ -314,6 +321,8 @@ fn eval_node(
     //  (2) the pivot – smallest coordinate of the high side – has the smallest ROUNDED distance to
     //      split_pos among the items at or right of it (K2 is: a nearer item with an EQUAL rounded
     //      distance; an item with a strictly smaller rounded distance is never passed over).
+    let overflowed = xs.iter().all(|c| c.is_finite())
+        && (!split_pos.is_finite() || rep.map_or(false, |r| !(r.fmin.is_finite() && r.fmax.is_finite())));
     let mut anomaly = None;
     let mut tie_possible = false;
     if split < n {
@@ -341,13 +350,15 @@ fn eval_node(
     } else if n > 0 && wl_reported != sum_passed {
         anomaly = Some(format!("all-left exit reports weight_left {} instead of the sum {} it was given", wl_reported, sum_passed));
     }
-    NodeEval { w, wl, within_tol, brackets, k2_here, premise, below, above, distinct: m, spurious_nopoint, anomaly, tie_possible }
+    NodeEval { w, wl, within_tol, brackets, k2_here, premise, below, above, distinct: m, spurious_nopoint, anomaly, tie_possible, overflowed }
 }
 
-fn signature(anomalous: bool, k2: bool, exit: Option<Exit>, wl: i64, w: i64, spurious_nopoint: bool) -> &'static str {
+fn signature(anomalous: bool, overflowed: bool, k2: bool, exit: Option<Exit>, wl: i64, w: i64, spurious_nopoint: bool) -> &'static str {
     if anomalous {
         // an inconsistent report here or above: whatever follows is not one of the known causes
         SIG_OTHER
+    } else if overflowed {
+        SIG_K3
     } else if k2 {
         SIG_K2
     } else {
@@ -453,7 +464,7 @@ fn judge(ctx: &mut Ctx, nodes: &[NodeOut]) -> Vec<(String, String)> {
         if e.within_tol || e.brackets {
             continue;
         }
-        let sig = signature(nd.anomalous, nd.k2, nd.exit, e.wl, e.w, e.spurious_nopoint);
+        let sig = signature(nd.anomalous, e.overflowed, nd.k2, nd.exit, e.wl, e.w, e.spurious_nopoint);
         ctx.count(&format!("node_fail_{}", sig));
         let what = format!(
             "node {} (axis {}, {} items, {} distinct values) exit {}: low side weighs {} of {} \
@@ -726,7 +737,7 @@ fn replay_rcb(d: usize, iter: usize, tol: f64, ws: &[i64], xs: &[f64]) -> (Vec<u
 // ------------------------------------------------------------------ protocol
 
 enum Op {
-    Tree { rib: bool, d: usize, iter: usize, tol: f64, threads: usize, ws: Vec<i64>, orig: Vec<f64>, rot: Vec<f64> },
+    Tree { rib: bool, d: usize, iter: usize, tol: f64, threads: usize, var: Option<String>, ws: Vec<i64>, orig: Vec<f64>, rot: Vec<f64> },
     Split { d: usize, coord: usize, tol: f64, min: f32, max: f32, ws: Vec<i64>, xs: Vec<f32> },
 }
 
@@ -746,7 +757,7 @@ fn parse_op(op: &str) -> Option<Op> {
     let mut it = op.split_whitespace();
     let kind = it.next()?;
     match kind {
-        "rcb" | "rib" => {
+        "rcb" | "rib" | "rcbvar" => {
             let d: usize = it.next()?.parse().ok()?;
             if d != 2 && d != 3 {
                 return None;
@@ -757,6 +768,15 @@ fn parse_op(op: &str) -> Option<Op> {
             }
             let tol = f64::from_bits(hex64(it.next())?);
             let threads: usize = it.next()?.parse().ok()?;
+            let var = if kind == "rcbvar" {
+                let v = it.next()?;
+                if !super::c03::VARIANTS.contains(&v) {
+                    return None;
+                }
+                Some(v.to_string())
+            } else {
+                None
+            };
             let n: usize = it.next()?.parse().ok()?;
             let mut ws = Vec::with_capacity(n);
             for _ in 0..n {
@@ -775,7 +795,7 @@ fn parse_op(op: &str) -> Option<Op> {
             if it.next().is_some() {
                 return None;
             }
-            Some(Op::Tree { rib: kind == "rib", d, iter, tol, threads, ws, orig, rot })
+            Some(Op::Tree { rib: kind == "rib", d, iter, tol, threads, var, ws, orig, rot })
         }
         "split" => {
             let d: usize = it.next()?.parse().ok()?;
@@ -825,6 +845,15 @@ fn format_tree_op(rib: bool, d: usize, iter: usize, tol: f64, threads: usize, ws
     s
 }
 
+fn format_var_op(d: usize, iter: usize, tol: f64, threads: usize, var: &str, ws: &[i64], xs: &[f64]) -> String {
+    let mut s = format!("rcbvar {} {} {:x} {} {} {}", d, iter, tol.to_bits(), threads, var, ws.len());
+    for w in ws {
+        write!(s, " {}", w).unwrap();
+    }
+    push_f64s(&mut s, xs);
+    s
+}
+
 fn format_split_op(d: usize, coord: usize, tol: f64, min: f32, max: f32, ws: &[i64], xs: &[f32]) -> String {
     let mut s = format!("split {} {} {:x} {:x} {:x} {}", d, coord, tol.to_bits(), min.to_bits(), max.to_bits(), ws.len());
     for w in ws {
@@ -845,7 +874,7 @@ pub fn run_op(ctx: &mut Ctx, op: &str) {
             ctx.count("bad-op");
             ctx.record(op.to_string(), "bad-op".into(), false);
         }
-        Some(Op::Tree { rib, d, iter, tol, threads, ws, orig, rot }) => run_tree(ctx, op, rib, d, iter, tol, threads, ws, orig, rot),
+        Some(Op::Tree { rib, d, iter, tol, threads, var, ws, orig, rot }) => run_tree(ctx, op, rib, d, iter, tol, threads, var, ws, orig, rot),
         Some(Op::Split { d, coord, tol, min, max, ws, xs }) => run_split(ctx, op, d, coord, tol, min, max, ws, xs),
     }
 }
@@ -984,7 +1013,7 @@ fn ids_not_bisection(d: usize, k: usize, xs: &[f64], ids: &[usize]) -> Option<St
 }
 
 #[allow(clippy::too_many_arguments)]
-fn run_tree(ctx: &mut Ctx, op: &str, rib: bool, d: usize, iter: usize, tol: f64, threads: usize, ws: Vec<i64>, orig: Vec<f64>, rot: Vec<f64>) {
+fn run_tree(ctx: &mut Ctx, op: &str, rib: bool, d: usize, iter: usize, tol: f64, threads: usize, var: Option<String>, ws: Vec<i64>, orig: Vec<f64>, rot: Vec<f64>) {
     let n = ws.len();
     ctx.count(if rib { "op_rib" } else { "op_rcb" });
     // Rib: the frame on the line must be the frame the implementation builds
@@ -1025,6 +1054,15 @@ fn run_tree(ctx: &mut Ctx, op: &str, rib: bool, d: usize, iter: usize, tol: f64,
     if n == 0 {
         finish(ctx, op, "ok |".into(), false, vec![]);
         return;
+    }
+    // `rcbvar`: the same data through another weight type / calling context / zero sign must give the
+    // same ids (so that what is judged below holds for every legal way to make the call)
+    let mut extra: Vec<(String, String)> = Vec::new();
+    if let (Some(v), false) = (&var, rib) {
+        let r = super::c03::variant_ids(d, v, iter, tol, threads, &ws, &orig);
+        if let Some(verdict) = super::c03::variant_verdict(ctx, "rcb", v, Some(&ids), r) {
+            extra.push(verdict);
+        }
     }
     // the trace: replay on the points Rcb works on
     let pts = if rib { &rot } else { &orig };
@@ -1078,6 +1116,7 @@ fn run_tree(ctx: &mut Ctx, op: &str, rib: bool, d: usize, iter: usize, tol: f64,
                 ),
             ));
         }
+        verdicts.extend(extra);
         finish(ctx, op, "ok large-n replay-differs".into(), false, verdicts);
         return;
     }
@@ -1121,6 +1160,8 @@ fn run_tree(ctx: &mut Ctx, op: &str, rib: bool, d: usize, iter: usize, tol: f64,
     } else {
         judge(ctx, &nodes)
     };
+    let mut verdicts = verdicts;
+    verdicts.extend(extra);
     finish(ctx, op, out, n >= 2 && iter >= 1, verdicts);
 }
 
@@ -1436,6 +1477,115 @@ pub fn generate(ctx: &mut Ctx) {
     gen_splits(ctx);
     // last, so that the streams above keep their cases
     gen_large(ctx);
+    gen_special(ctx);
+}
+
+/// SPECIAL VALUES / PLUMBING / CONTEXT for the balance property: the weights decide the cut, so the
+/// weight types and zero signs matter most here. `rcbvar` ops: the plain call is judged node by node
+/// as usual and the variant must return the same ids.
+fn gen_special(ctx: &mut Ctx) {
+    let small = |r: &mut Rng| match r.usize(3) {
+        0 => 2 + r.usize(10),
+        1 => 12 + r.usize(60),
+        _ => 72 + r.usize(400),
+    };
+    // -0.0 weights (f64), an odd and an even number of them, on weights with zeros
+    for k in 0..ctx.budget(12, 500) {
+        let d = 2 + (k % 2);
+        let n = small(&mut ctx.rng);
+        let iter = 1 + ctx.rng.usize(4);
+        let tol = gen_tol(&mut ctx.rng);
+        let shape = ctx.rng.usize(POINT_SHAPES.len());
+        let xs = gen_points(&mut ctx.rng, n, d, shape);
+        let key: Vec<f64> = xs.chunks_exact(d).map(|p| p[0]).collect();
+        let mut ws = gen_weights(&mut ctx.rng, n, [4usize, 1, 3][k % 3], &key);
+        for _ in 0..3 {
+            let i = ctx.rng.usize(n);
+            ws[i] = 0;
+        }
+        let var = if k % 2 == 0 { "w_f64_negzero_odd" } else { "w_f64_negzero_even" };
+        run_op(ctx, &format_var_op(d, iter, tol, 4, var, &ws, &xs));
+    }
+    // -0.0 coordinates next to negative and positive ones
+    for k in 0..ctx.budget(10, 400) {
+        let d = 2 + (k % 2);
+        let n = small(&mut ctx.rng);
+        let iter = 1 + ctx.rng.usize(4);
+        let tol = gen_tol(&mut ctx.rng);
+        let span = 1 + ctx.rng.usize(3) as i64;
+        let mut xs: Vec<f64> = (0..n * d).map(|_| ctx.rng.range(-span, span) as f64).collect();
+        let zeros: Vec<usize> = (0..xs.len()).filter(|&i| xs[i] == 0.0).collect();
+        let take = if zeros.is_empty() { 0 } else { 1 + ctx.rng.usize(zeros.len()) };
+        let take = if k % 2 == 0 { take | 1 } else { take & !1 };
+        for &i in zeros.iter().take(take) {
+            xs[i] = -0.0;
+        }
+        let wshape = ctx.rng.usize(WEIGHT_SHAPES.len());
+        let key: Vec<f64> = xs.chunks_exact(d).map(|p| p[0]).collect();
+        let ws = gen_weights(&mut ctx.rng, n, wshape, &key);
+        ctx.count(if k % 2 == 0 { "special:negzero_coord_odd" } else { "special:negzero_coord_even" });
+        run_op(ctx, &format_var_op(d, iter, tol, 1, "coord_poszero", &ws, &xs));
+    }
+    // f64 coordinates that collide after `as f32`; the legal end of the f32 range (beyond it the
+    // conversion gives infinities: outside the contract, not generated)
+    for k in 0..ctx.budget(12, 500) {
+        let d = 2 + (k % 2);
+        let n = small(&mut ctx.rng);
+        let iter = 1 + ctx.rng.usize(4);
+        let tol = gen_tol(&mut ctx.rng);
+        let xs: Vec<f64> = if k % 2 == 0 {
+            let m = 2 + ctx.rng.usize(5);
+            let vals: Vec<f32> = (0..m).map(|_| uniform(&mut ctx.rng, -10.0, 10.0) as f32).collect();
+            (0..n * d).map(|_| *ctx.rng.pick(&vals) as f64 * (1.0 + uniform(&mut ctx.rng, -1.0, 1.0) * 1e-9)).collect()
+        } else {
+            // |x| <= 1.6e38: `min + max` stays finite. Above 1.7e38 it overflows and the node is not
+            // cut at all (finding K3, corpus k3_midpoint_overflow.case*): not generated here
+            let scale = *ctx.rng.pick(&[1e30f64, 1e37, 1.6e38]);
+            (0..n * d).map(|_| uniform(&mut ctx.rng, -1.0, 1.0) * scale).collect()
+        };
+        let xs: Vec<f64> = xs.iter().map(|v| if *v == 0.0 { 0.0 } else { *v }).collect();
+        let wshape = ctx.rng.usize(WEIGHT_SHAPES.len());
+        let key: Vec<f64> = xs.chunks_exact(d).map(|p| p[0]).collect();
+        let ws = gen_weights(&mut ctx.rng, n, wshape, &key);
+        ctx.count(if k % 2 == 0 { "special:f32_collision" } else { "special:f32_extreme_magnitude" });
+        let threads = *ctx.rng.pick(&[1usize, 4, 16]);
+        run_op(ctx, &format_tree_op(false, d, iter, tol, threads, &ws, &xs, &[]));
+    }
+    // weight types and iterator adaptors; calling contexts (8..32 calls at once on pools of 4 and 16)
+    let vars = [
+        "w_f64", "w_f32", "w_i32", "w_u32", "w_u64", "w_par_cloned", "w_into_par_map", "w_min_len", "w_max_len",
+        "pts_par_cloned", "pts_max_len", "both_par_max_len", "ctx_global", "ctx_in_task", "ctx_concurrent", "ctx_concurrent",
+    ];
+    for rep in 0..ctx.budget(1, 40) {
+        for (k, var) in vars.iter().enumerate() {
+            let d = 2 + ((k + rep) % 2);
+            let n = small(&mut ctx.rng);
+            let iter = 1 + ctx.rng.usize(4);
+            let tol = gen_tol(&mut ctx.rng);
+            let threads = if k == 14 { 4 } else if k == 15 { 16 } else { *ctx.rng.pick(&[1usize, 2, 4, 16]) };
+            let shape = ctx.rng.usize(POINT_SHAPES.len());
+            let xs = gen_points(&mut ctx.rng, n, d, shape);
+            let ws: Vec<i64> = match ctx.rng.usize(3) {
+                0 => vec![1; n],
+                1 => (0..n).map(|_| ctx.rng.range(0, 100)).collect(),
+                _ => (0..n).map(|_| if ctx.rng.chance(1, 5) { ctx.rng.range(1, 100) } else { 0 }).collect(),
+            };
+            run_op(ctx, &format_var_op(d, iter, tol, threads, var, &ws, &xs));
+        }
+    }
+    for k in 0..ctx.budget(2, 8) {
+        // large inputs: f64 weights / concurrent calls where rayon splits the passes and the fold
+        let d = 2 + (k % 2);
+        let mut n = 8193 + ctx.rng.usize(8000);
+        while n % 4096 == 0 {
+            n += 1;
+        }
+        let xs = gen_large_points(&mut ctx.rng, n, d, 0);
+        let ws: Vec<i64> = (0..n).map(|_| ctx.rng.range(0, 100)).collect();
+        ctx.count("special:large_n_variant");
+        let var = ["w_f64", "ctx_concurrent", "w_max_len", "w_u32"][k % 4];
+        run_op(ctx, &format_var_op(d, 1 + k % 3, 0.05, [4usize, 16, 2, 3][k % 4], var, &ws, &xs));
+    }
 }
 
 const LARGE_SHAPES: [&str; 3] = ["uniform_distinct", "grid_duplicates", "clustered"];
